@@ -239,15 +239,75 @@ class ManyConnections(Stage):
         return res
 
 
+class SinkNames(Stage):
+    """connections that come and go on the connection-id interface (as in GDB mode): names stay distinct
+    and `X:` selects exactly that connection's messages"""
+    name = 'sink-names'
+
+    def examples(self, tier):
+        return 150 if tier == 'quick' else 14 * 1000
+
+    def gen(self, d, tier):
+        ids = ['a', 'b', 'c', 'gdb_conn:0x55']
+        ops = []
+        is_open = set()
+        for _ in range(d.int(3, 40)):
+            k = d.weighted([(3, 'open'), (2, 'close'), (5, 'message')])
+            if k == 'message' and is_open:
+                ops.append(['message', d.choice(sorted(is_open)), d.int(2, 5)])
+            elif k == 'close' and is_open:
+                c = d.choice(sorted(is_open))
+                is_open.discard(c)
+                ops.append(['close', c])
+            else:
+                c = d.choice(ids)
+                is_open.add(c)
+                ops.append(['open', c, d.choice([None, True, False])])
+        return dict(ops=ops)
+
+    def execute(self, case):
+        from core import matcher
+        from .c04 import SinkExec
+        res = Result()
+        res.evals = 0
+        ex = SinkExec()
+        for op in case['ops']:
+            ex.apply(op, Result())       # C04 judges the table; here only names and labels
+        conns = list(ex.cm.connections())
+        names = [c.name() for c in conns]
+        if len(set(names)) != len(names):
+            res.bad('connection-names-not-distinct', repr(names))
+        allm = [(c, m) for c in conns for m in c.messages()]
+        for c in conns:
+            cm_ = matcher.parse(c.name() + ':').simplify()
+            for c2, m in allm:
+                res.evals += 1
+                if cm_.matches(m) != (c2 is c):
+                    res.bad('connection-label-selects-wrong', '%r %s a message of connection #%d (names %r)' % (
+                        c.name() + ':', 'selects' if c2 is not c else 'misses', conns.index(c2), names))
+                    break
+        closed = set()
+        reopen = False
+        for op in case['ops']:
+            if op[0] == 'close': closed.add(op[1])
+            if op[0] == 'open' and op[1] in closed: reopen = True
+        res.nontrivial = len(conns) >= 3 and reopen
+        res.label('connections=%d' % min(len(conns), 6))
+        if reopen: res.label('reopen-after-close')
+        res.sample = case['ops'][:20]
+        return res
+
+
 class C14(Prop):
     id = 'C14'
     rule = ('letters-exhaustive: every index 0..475253 (all ids of one to four letters) in chunks, against an independent shortlex enumeration '
             '(order, no gaps, inverse, case); letters-sampled: indexes up to 1e12; labels-as-matchers: every object and connection of generated '
             'histories (incl. deep id reuse and > 26 connections) used as matcher `CONN: id+letters` / `CONN:` and compared in both inclusions '
             'with the reference model\'s mention sets, also through `list <label>`. non-trivial = case containing an object whose id has >= 2 '
-            'incarnations or is in use on >= 2 connections (enumeration chunks all count); distinct by SHA-1 of the case.')
+            'incarnations or is in use on >= 2 connections (enumeration chunks all count); sink-names: open/message/close sequences on the '
+            'connection-id interface, names distinct and `X:` exact (non-trivial = >= 3 connections with a re-open); distinct by SHA-1 of the case.')
     assumptions = ['reference model of DESIGN appendix B decides which messages are on / mention / create / destroy an object']
-    stages = [Letters(), LettersFar(), Labels(), ManyConnections()]
+    stages = [Letters(), LettersFar(), Labels(), ManyConnections(), SinkNames()]
 
 
 PROP = C14()
